@@ -272,7 +272,7 @@ def run(ctx):
     bound = 2 if q else 3
     per_cfg = {}
     for name, cfg in configs(q):
-        cap = (5000 if q else 30000)
+        cap = (5000 if q else 20000)
         k = 0
         for obs in enumerate_schedules(cfg, bound, cap=cap):
             consider(name, cfg, obs, False, 'systematic, <= %d pre-emptions' % bound)
